@@ -423,6 +423,10 @@ PROPS["C18"]["stages"] = PROPS["C18"]["stages"] + [st for st in PROPS["C05"]["st
 _CFG_STAGE = dict(name="c14config", pkg="c14", test="TestC14Config", access=[FILE_ACCESS], timeout_quick=300, timeout_thorough=3000)
 PROPS["C09"]["stages"] = PROPS["C09"]["stages"] + [_CFG_STAGE]
 PROPS["C12"]["stages"] = PROPS["C12"]["stages"] + [_CFG_STAGE]
+# ... and of C11: a gaussian stage of a config file answers what the gaussian trigger built from the
+# stage's own resolved options answers
+PROPS["C11"]["stages"] = PROPS["C11"]["stages"] + [_CFG_STAGE]
+PROPS["C11"]["rule"] += "; gaussian stages of config files (stage c14config) against a profile built directly from the stage's own resolved options"
 PROPS["C09"]["rule"] += "; the plan parsed from config files (stage c14config): every stage's tick interval against the model's"
 PROPS["C12"]["rule"] += "; the plan parsed from config files (stage c14config): a distributed stage is ticked at the distribution's sub-tick interval"
 
